@@ -571,7 +571,7 @@ class C09(Prop):
             e_entry, phoff, shoff = rd(24, 4), rd(28, 4), rd(32, 4)
             phentsize, phnum, shentsize, shnum = rd(42, 2), rd(44, 2), rd(46, 2), rd(48, 2)
         PH, SH = C09.ELF_PH[is64], C09.ELF_SH[is64]
-        fields = [(16, 2, "e_type"), (24, 8 if is64 else 4, "e_entry")]
+        fields = [(16, 2, "e_type"), (24, 8 if is64 else 4, "e_entry"), (62 if is64 else 50, 2, "e_shstrndx")]
         segs, secs = [], []
         seg_ok = sec_ok = True
         if phoff == 0 or phnum == 0:
@@ -592,7 +592,22 @@ class C09(Prop):
                 o = shoff + i * SH["size"]
                 secs.append(tuple(rd(o + SH[k][0], SH[k][1]) for k in ("type", "addr", "ssize", "offset")))
                 fields += [(o + SH[k][0], SH[k][1], "sh%d.%s" % (i, k)) for k in ("type", "addr", "ssize", "offset")]
-        return {"is64": is64, "be": be, "e_type": e_type, "e_entry": e_entry, "segs": segs, "secs": secs,
+        # object's `sections()` also needs the section-name string table (FileHeader::section_strings): it fails — and
+        # elf::entry_point then yields nothing for a non-ET_EXEC file — when e_shstrndx is 0 or out of range, or when the
+        # string table's offset + size overflows u64 (SHT_NOBITS excepted).  SHN_XINDEX is left to "not plain".
+        sections_err = False
+        if secs and sec_ok:
+            shstrndx = rd(62 if is64 else 50, 2)
+            if shstrndx == 0xFFFF:
+                sec_ok = False
+            elif shstrndx == 0 or shstrndx >= len(secs):
+                sections_err = True
+            else:
+                ty, _, ssize, soff = secs[shstrndx]
+                if ty != 8 and soff + ssize >= 1 << 64:
+                    sections_err = True
+        return {"is64": is64, "be": be, "e_type": e_type, "e_entry": e_entry, "segs": segs,
+                "secs": [] if sections_err else secs, "sections_err": sections_err,
                 "seg_ok": seg_ok, "sec_ok": sec_ok, "fields": fields}
 
     def gen_kernel_elf(self, rng, asset):
@@ -610,6 +625,8 @@ class C09(Prop):
                 o, sz, n = rng.choice(p["fields"] + [p["fields"][0], p["fields"][1]] * 3)
                 if n == "e_type":
                     v = rng.choice([2, 3, 1, 0, 4])
+                elif n == "e_shstrndx":
+                    v = rng.choice([0, 1, max(0, len(p["secs"]) - 1), len(p["secs"]), len(p["secs"]) + 1, 0xFFFF])
                 elif n.endswith(".type"):
                     v = rng.choice([0, 1, 8, 3, 2])
                 else:
